@@ -44,6 +44,7 @@ def units(tier):
 
 def cases(unit):
     if unit['fam'] == 'lpmax':
+        yield {'fam': 'longline'}
         # the longest payload a prefix can announce (and its neighbours)
         for size, n in ((1, 254), (1, 255), (2, 65534), (2, 65535)):
             for order in ('little', 'big'):
@@ -68,6 +69,18 @@ def viol(fam, sym, detail):
 
 def run_case(case, acc):
     out = []
+    if case['fam'] == 'longline':
+        items = ['x' * 70000, '', 'y' * 65536, 'z']
+        framed = ''.join(run([line.frame()], items).items)
+        for step in (65536, 4096, 70001, 1000):
+            chunks = [framed[i:i + step] for i in range(0, len(framed), step)]
+            sink = run([line.unframe()], chunks)
+            acc.evals += 1
+            acc.traces += 1
+            if sink.error is not None or sink.items != items:
+                return [viol('line', 'long-items-differ', {'chunk_size': step, 'observed_lengths': [len(x) for x in sink.items], 'error': repr(sink.error)})]
+        acc.nontrivial.add(fast_hash('longline'))
+        return []
     if case['fam'] == 'line':
         items = case['items']
         framed = ''.join(run([line.frame()], items).items) + case['tail']
